@@ -1351,3 +1351,29 @@ Definition show_history (i : hist_in) :=
                 | OSite (Ok files) => inr (map fst files)
                 | OAlone (Ok po) => inr [po_title po]
                 end) (run_history (hi_env i) [] (hi_fs i) (hi_steps i)).
+
+(** For very large sites (max_servings in the hundreds) the harness passes a SAMPLE of the pages:
+    the complete file set and all assets are still compared, of the pages those that are given. *)
+Definition check_site_sample (i : site_in) (o : site_obs) : bool :=
+  match run_site i, o with
+  | Err e, ObsErr cls => str_eqb (err_name e) cls
+  | Ok files, ObsOk ofiles pages assets =>
+      let fin := final_files files [] in
+      let names := map (fun fc => tl (fst fc)) fin in
+      forallb (fun n => mem_str n ofiles) names && forallb (fun n => mem_str n names) ofiles
+      && (List.length names =? List.length ofiles)%nat
+      && forallb (fun o => match o with
+                           | PO p _ _ _ _ _ _ _ _ _ =>
+                               match lookup_file (c_slash :: p) files with
+                               | Some (CPageOut po) => page_matches po o
+                               | _ => false
+                               end
+                           end) pages
+      && forallb (fun a => match lookup_file (c_slash :: fst a) files with
+                           | Some (CCopy _ d) => bytes_eqb d (snd a)
+                           | _ => false
+                           end) assets
+      && (List.length (filter (fun fc => match snd fc with CCopy _ _ => true | _ => false end) fin)
+          =? List.length assets)%nat
+  | _, _ => false
+  end.
